@@ -1,0 +1,13 @@
+// Copyright 2024 The Mellium Contributors.
+// Use of this source code is governed by the BSD 2-clause
+// license that can be found in the LICENSE file.
+
+//go:build !verif
+
+// Package verifhook provides named yield points that a verification harness
+// can use to force goroutine schedules. Without the "verif" build tag Yield is
+// an empty function.
+package verifhook // import "mellium.im/xmpp/internal/verifhook"
+
+// Yield does nothing unless built with the "verif" tag.
+func Yield(string) {}
